@@ -1,2 +1,79 @@
-(* placeholder; replaced below *)
-From PV Require Import C01.Model.
+(* C01 -- yanny: tables and header pairs written to a file read back unchanged.
+   Property theorems only; each is closed by `exact` and followed by Print Assumptions.
+   Models: Yanny/Render.v (writer `render_checked`, specification `sem`, domain `doc_ok`, `str_ok`, `elt_ok`),
+   Yanny/Parse.v (reader).  Floats are TEXT in the model (numpy's formatting is an oracle checked by the harness). *)
+From Coq Require Import String.
+From Coq Require Import NArith ZArith List Bool.
+Import ListNotations.
+From PV Require Import Yanny.Bytes Yanny.BytesFacts Yanny.Types Yanny.Parse Yanny.Render
+  Yanny.TokenFacts Yanny.RowFacts Yanny.TypeFacts Yanny.DocFacts C01.Model C01.Proofs.
+Open Scope N_scope.
+
+(* a protected string followed by any run of blanks and further text is read back as the string *)
+Theorem C01_protect_token_roundtrip : forall s w rest,
+  str_ok s = true -> w <> [] -> all_ws w = true -> head_not_ws rest ->
+  get_token (protect s ++ w ++ rest) = Some (s, rest).
+Proof. exact protect_token_roundtrip. Qed.
+Print Assumptions C01_protect_token_roundtrip.
+
+(* ... and at the end of a line *)
+Theorem C01_protect_token_roundtrip_eol : forall s, str_ok s = true -> get_token (protect s) = Some (s, []).
+Proof. exact protect_token_roundtrip_eol. Qed.
+Print Assumptions C01_protect_token_roundtrip_eol.
+
+(* a string array: the brace token is isolated, then split into exactly the elements *)
+Theorem C01_array_roundtrip : forall xs w rest,
+  forallb elt_ok xs = true -> all_ws w = true -> head_not_ws rest ->
+  let data := join [SP] (map protect xs) in
+  get_token (render_array (map STok xs) ++ w ++ rest) = Some (data, rest) /\
+  split_array (S (length data)) data = Some xs.
+Proof. exact array_roundtrip. Qed.
+Print Assumptions C01_array_roundtrip.
+
+(* quote parity: trailing_comment leaves every rendered row of a well-formed table intact *)
+Theorem C01_row_comment_free : forall es t r,
+  forallb enum_ok es = true -> table_ok es t = true -> In r (t_rows t) ->
+  trailing_comment (render_row_line (upper (t_name t)) r) = render_row_line (upper (t_name t)) r.
+Proof. exact row_comment_free_doc. Qed.
+Print Assumptions C01_row_comment_free.
+
+(* integers: decimal text and back, no range loss in the declared width, never quoted *)
+Theorem C01_int_cell_roundtrip : forall t z, In t [TShort; TInt; TLong] -> int_range t z = true ->
+  parse_Z (show_Z z) = Some z /\ conv_sval (np_of_int t) (SInt z) = Some (SInt z) /\ render_sval (SInt z) = show_Z z.
+Proof. exact int_cell_roundtrip. Qed.
+Print Assumptions C01_int_cell_roundtrip.
+
+(* the cells of a rendered row come back, given each cell fits the kind of its column *)
+Theorem C01_row_cells_roundtrip : forall cols r, row_fits cols r = true ->
+  parse_cells cols (join [SP] (map render_cell r)) = Some r.
+Proof. exact parse_cells_render. Qed.
+Print Assumptions C01_row_cells_roundtrip.
+
+(* a whole data line of a well-formed table: survives strip / trailing_comment / the double-brace rewrite,
+   dispatches on the upper-cased table name, and appends exactly its cells to that table *)
+Theorem C01_row_roundtrip : forall es t r sy st,
+  forallb enum_ok es = true -> table_ok es t = true -> In r (t_rows t) ->
+  assoc (upper (t_name t)) sy = Some (tcols_of es (t_cols t)) ->
+  process_line sy st (render_row_line (upper (t_name t)) r)
+  = Some (mkst (st_pairs st) (assoc_app (upper (t_name t)) r (st_rows st))).
+Proof. exact row_roundtrip. Qed.
+Print Assumptions C01_row_roundtrip.
+
+(* the declaration the writer emits for a column classifies as the column's kind and array-ness *)
+Theorem C01_column_type_roundtrip : forall es c, col_names_ok es -> wkind es c <> None ->
+  classify (typ_of es c) = kind_of (c_type c) /\ isarray (typ_of es c) = is_arr c.
+Proof. exact typ_of_facts. Qed.
+Print Assumptions C01_column_type_roundtrip.
+
+(* unsupported scalar types are refused: no text is produced at all *)
+Theorem C01_unsupported_refused : forall d t c code,
+  In t (d_tables d) -> In c (t_cols t) -> c_type c = TUnsup code -> lookup code dtmap = None ->
+  render_checked d = None.
+Proof. exact unsupported_refused. Qed.
+Print Assumptions C01_unsupported_refused.
+
+Theorem C01_unsupported_codes :
+  forallb (fun code => match lookup code dtmap with None => true | Some _ => false end)
+    (map bs ["u1"; "u2"; "u4"; "u8"; "i1"; "b1"; "f2"; "f16"; "c8"; "c16"; "c32"; "O"; "M8[ns]"; "m8[ns]"]%string) = true.
+Proof. exact unsupported_codes. Qed.
+Print Assumptions C01_unsupported_codes.
